@@ -165,6 +165,7 @@ func (b built) res(extra map[string]any) Res {
 			r["rt"] = map[string]any{"done": true, "ok": o.OK, "remlen": len(o.Rem), "same": same, "err": o.Err, "reader": b.reader}
 		}
 	}
+	r["#val"] = b.val
 	if b.ok && b.serOK && b.val != nil {
 		queryStability(ReadOut{OK: true, SerOK: true, Val: b.val, Ser: b.ser}, r)
 	}
@@ -175,7 +176,27 @@ func (b built) res(extra map[string]any) Res {
 }
 
 func init() {
+	// Build: one constructor call.  With "again": the call is made, everything a caller can reach from the result is overwritten
+	// (it is the caller's), and the SAME call is made once more: the event reports the second result, which is judged like any other.
 	register("Build", func(s *Session, a Args) Res {
+		r := buildOnce(s, a)
+		v := r["#val"]
+		delete(r, "#val")
+		if a.Bool("again") {
+			n := 0
+			if v != nil {
+				n = scribbleReachable(v)
+			}
+			r = buildOnce(s, a)
+			delete(r, "#val")
+			r["scribbled"] = n
+		}
+		return r
+	})
+}
+
+func buildOnce(s *Session, a Args) Res {
+	{
 		m := sub(a, "m")
 		switch a.Str("fn") {
 		case "NewCertificateWithType":
@@ -455,7 +476,10 @@ func init() {
 			return b.res(nil)
 		}
 		return Res{"unknown_fn": true}
-	})
+	}
+}
+
+func init() {
 	// GoMapToMapping repeated (Go's randomised map iteration): every repetition must give the same bytes.
 	register("BuildMapping", func(s *Session, a Args) Res {
 		gomap, seq := pairsToMap(a, "pairs")
